@@ -57,6 +57,18 @@ func to1(v vspec.Val) *ddb1.AttributeValue {
 			ss = append(ss, aws1.String(s))
 		}
 		return &ddb1.AttributeValue{SS: ss}
+	case "NS":
+		ns := []*string{}
+		for _, n := range v.NS {
+			ns = append(ns, aws1.String(nd.Itoa(n)))
+		}
+		return &ddb1.AttributeValue{NS: ns}
+	case "BS":
+		bs := [][]byte{}
+		for _, b := range v.BS {
+			bs = append(bs, append([]byte{}, b...))
+		}
+		return &ddb1.AttributeValue{BS: bs}
 	}
 	panic("to1: " + v.Kind)
 }
@@ -87,6 +99,18 @@ func to2(v vspec.Val) types2.AttributeValue {
 		return &types2.AttributeValueMemberM{Value: m}
 	case "SS":
 		return &types2.AttributeValueMemberSS{Value: append([]string{}, v.SS...)}
+	case "NS":
+		ns := []string{}
+		for _, n := range v.NS {
+			ns = append(ns, nd.Itoa(n))
+		}
+		return &types2.AttributeValueMemberNS{Value: ns}
+	case "BS":
+		bs := [][]byte{}
+		for _, b := range v.BS {
+			bs = append(bs, append([]byte{}, b...))
+		}
+		return &types2.AttributeValueMemberBS{Value: bs}
 	}
 	panic("to2: " + v.Kind)
 }
@@ -123,6 +147,14 @@ func from1(av *ddb1.AttributeValue) vspec.Val {
 			ss = append(ss, *s)
 		}
 		return vspec.Val{Kind: "SS", SS: ss}
+	case av.NS != nil:
+		ss := []string{}
+		for _, s := range av.NS {
+			ss = append(ss, *s)
+		}
+		return vspec.Val{Kind: "NS", SS: ss} // numeral texts, compared as a set of texts
+	case av.BS != nil:
+		return vspec.Val{Kind: "BS", BS: av.BS}
 	}
 	return vspec.Val{Kind: "?"}
 }
@@ -153,6 +185,10 @@ func from2(av types2.AttributeValue) vspec.Val {
 		return vspec.Val{Kind: "M", M: m}
 	case *types2.AttributeValueMemberSS:
 		return vspec.Val{Kind: "SS", SS: x.Value}
+	case *types2.AttributeValueMemberNS:
+		return vspec.Val{Kind: "NS", SS: x.Value}
+	case *types2.AttributeValueMemberBS:
+		return vspec.Val{Kind: "BS", BS: x.Value}
 	}
 	return vspec.Val{Kind: "?"}
 }
@@ -184,6 +220,9 @@ func sameVal(a, b vspec.Val) bool {
 			}
 		}
 		return true
+	}
+	if a.Kind == "NS" && b.Kind == "NS" {
+		return vspec.Equal(vspec.Val{Kind: "SS", SS: a.SS}, vspec.Val{Kind: "SS", SS: b.SS})
 	}
 	return vspec.Equal(a, b)
 }
@@ -290,12 +329,19 @@ func VerifC17Equivalence() {
 		id := "C17"
 		switch op := nd.Choice("op", 11); op {
 		case 0: // PutItem of a value tree, optionally conditional
-			v := vspec.GenTree(nm+".v", nd.Param("depth", 0), 1)
-			if nd.Known("C10-v2-empty-list-or-map-reads-as-null") {
-				nd.Assume(!(v.Kind == "L" && len(v.L) == 0) && !(v.Kind == "M" && len(v.M) == 0))
-			}
-			if v.Kind == "NS" || v.Kind == "BS" {
-				v = vspec.Val{Kind: "NULL"}
+			var v vspec.Val
+			if d := nd.Param("depth", 0); d > 0 {
+				v = vspec.GenTree(nm+".v", d, 1)
+				if nd.Known("C10-v2-empty-list-or-map-reads-as-null") {
+					nd.Assume(!(v.Kind == "L" && len(v.L) == 0) && !(v.Kind == "M" && len(v.M) == 0))
+				}
+			} else {
+				// one value of every type, and a set nested in a list
+				sv := vspec.Val{Kind: "S", S: nd.StringN(nm+".vs", 1)}
+				shapes := []vspec.Val{sv, {Kind: "N", N: 10, NTxt: "1e1"}, {Kind: "B", B: nd.Bytes(nm+".vb", 1)}, {Kind: "BOOL", Bool: nd.Bool(nm + ".vbool")},
+					{Kind: "NULL"}, {Kind: "SS", SS: []string{sv.S}}, {Kind: "NS", NS: []int64{7}}, {Kind: "BS", BS: [][]byte{{1}}},
+					{Kind: "L", L: []vspec.Val{sv}}, {Kind: "M", M: map[string]vspec.Val{"x": sv}}, {Kind: "L", L: []vspec.Val{{Kind: "NS", NS: []int64{7}}}}}
+				v = shapes[nd.Choice(nm+".shape", len(shapes))]
 			}
 			if v.Kind == "N" && v.NTxt == "" {
 				v.NTxt = "7"
@@ -308,8 +354,13 @@ func VerifC17Equivalence() {
 				i2[a] = b
 			}
 			in1, in2 := &ddb1.PutItemInput{TableName: aws1.String(tbl), Item: i1}, &ddb2.PutItemInput{TableName: aws2.String(tbl), Item: i2}
-			if nd.Choice("cond", 2) == 1 {
+			switch nd.Choice("cond", 3) {
+			case 1:
 				in1.ConditionExpression, in2.ConditionExpression = aws1.String("attribute_not_exists(p)"), aws2.String("attribute_not_exists(p)")
+			case 2: // through a #name placeholder (names starting with a letter, a digit, an underscore)
+				al := []string{"#a", "#0", "#_v"}[nd.Choice(nm+".alias", 3)]
+				in1.ConditionExpression, in2.ConditionExpression = aws1.String("attribute_not_exists("+al+")"), aws2.String("attribute_not_exists("+al+")")
+				in1.ExpressionAttributeNames, in2.ExpressionAttributeNames = map[string]*string{al: aws1.String("p")}, map[string]string{al: "p"}
 			}
 			_, err1 = c1.PutItem(in1)
 			_, err2 = c2.PutItem(ctx, in2)
